@@ -35,7 +35,21 @@ from vf.oracle import c19_plan as op
 
 PID = "C19"
 FAKE = os.path.join(boot.VERIF, "vf", "oracle", "c19_fake_pytype.py")
-NINJA = "/venv/bin/ninja"
+
+
+def _ninja_binary():
+  """The real ninja executable (the /venv/bin/ninja script is a python wrapper around it)."""
+  try:
+    import ninja  # pylint: disable=g-import-not-at-top
+    p = os.path.join(ninja.BIN_DIR, "ninja")
+    if os.path.exists(p):
+      return p
+  except Exception:  # pylint: disable=broad-except
+    pass
+  return "/venv/bin/ninja"
+
+
+NINJA = _ninja_binary()
 SCRATCH = os.path.join(boot.BUILD, "scratch")
 
 
@@ -244,9 +258,9 @@ def dynamic_one(pipe, acc, spec, base, requested, outdir, seeds, max_ms=30):
   if plan.error:
     return
   wit = {"spec": _spec_for_witness(spec), "requested": requested}
-  outs_file = os.path.join(outdir, "c19-outputs.json")
+  outs_file = os.path.join(outdir, "c19-outputs.txt")
   with open(outs_file, "w") as f:
-    json.dump(sorted(o for b in plan.builds for o in b.outs), f)
+    f.write("\n".join(sorted(o for b in plan.builds for o in b.outs)) + "\n")
   acc.count("projects_executed")
   for seed in seeds:
     shutil.rmtree(os.path.join(outdir, "pyi"), ignore_errors=True)
@@ -263,14 +277,18 @@ def dynamic_one(pipe, acc, spec, base, requested, outdir, seeds, max_ms=30):
     sys.stdout.flush()
     keep = os.dup(1)
     fd = os.open(nout, os.O_WRONLY | os.O_CREAT | os.O_TRUNC, 0o644)
+    keep2 = os.dup(2)
     os.dup2(fd, 1)
+    os.dup2(fd, 2)
     os.close(fd)
     try:
       with contextlib.redirect_stdout(io.StringIO()):
         rc = runner.build()
     finally:
       os.dup2(keep, 1)
+      os.dup2(keep2, 2)
       os.close(keep)
+      os.close(keep2)
     acc.count("ninja_runs")
     events = op.read_event_log(log)
     ev = op.check_event_log(events, plan, rc)
@@ -371,10 +389,11 @@ def child(arg):
 def _dynamic_specs(rng, n_random):
   """Projects for the real-ninja monitor: no shell-special characters anywhere."""
   sh = {s["label"]: s for s in gen.shapes()}
-  chosen = [sh[k] for k in ("three_cycle_sharing_node_with_two_cycle", "cycle_with_tails",
-                            "two_cycles_joined_by_top", "ring5", "cycle_with_system_builtin_missing",
-                            "cycle_feeding_cycle_feeding_leaf", "diamond", "init_in_cycle",
-                            "package_cycle_relative")]
+  names = ["three_cycle_sharing_node_with_two_cycle", "cycle_with_tails", "two_cycles_joined_by_top",
+           "cycle_with_system_builtin_missing", "cycle_feeding_cycle_feeding_leaf", "init_in_cycle"]
+  if n_random > 4:
+    names += ["ring5", "diamond", "package_cycle_relative", "two_cycles_chained", "ring4"]
+  chosen = [sh[k] for k in names]
   specs = [(s, [s["requested"]]) for s in chosen]
   wide = gen._graph("wide_fan", [("top", f"w{i}") for i in range(10)] + [(f"w{i}", "base") for i in range(10)])  # pylint: disable=protected-access
   specs.append((wide, [wide["requested"]]))
@@ -400,7 +419,7 @@ def _tasks(tier, seed):
   add({"gen": "flat", "n": 2, "lo": 0, "hi": 4, "referee_every": 1}, "flat2")
   sh3 = 4
   for s in range(sh3):
-    add({"gen": "flat", "n": 3, "lo": s * 64 // sh3, "hi": (s + 1) * 64 // sh3, "referee_every": 9},
+    add({"gen": "flat", "n": 3, "lo": s * 64 // sh3, "hi": (s + 1) * 64 // sh3, "referee_every": 25},
         f"flat3/{s}")
   if not quick:
     sh4 = 64
@@ -411,11 +430,11 @@ def _tasks(tier, seed):
   nshapes = len(gen.shapes())
   for lo in range(0, nshapes, 4):
     add({"gen": "shapes", "lo": lo, "hi": lo + 4, "cap": 10 if quick else 63,
-         "seed": rng.randrange(1 << 30), "referee_every": 5}, f"shapes/{lo}")
+         "seed": rng.randrange(1 << 30), "referee_every": 10}, f"shapes/{lo}")
   # (3) random projects
   for b in range(8 if quick else 48):
     add({"gen": "random", "count": 8 if quick else 40, "cap": 5 if quick else 10,
-         "seed": rng.randrange(1 << 30), "referee_every": 7}, f"random/{b}")
+         "seed": rng.randrange(1 << 30), "referee_every": 15}, f"random/{b}")
   # (4) hostile names (static only, every plan refereed by the real ninja's loader)
   nh = len(gen.hostile_projects(random.Random(0)))
   for lo in range(0, nh, 10):
@@ -428,15 +447,16 @@ def _tasks(tier, seed):
        "referee_every": 3}, "fake-graph")
   # (6) real ninja with delay injection
   nseeds = 5 if quick else 20
-  dyn = _dynamic_specs(rng, 6 if quick else 30)
+  dyn = _dynamic_specs(rng, 0 if quick else 16)
   direct_dyn = [s for s in gen.direct_projects(random.Random(1), 2)
-                if "system" in s["label"] or "cycle" in s["label"]]
+                if s["label"] in (("system member inside a two-pass group",) if quick else (
+                    "system member inside a two-pass group", "dependency on one member of a cycle only"))]
   dyn += [(s, [s["requested"]]) for s in direct_dyn]
-  per = 2 if quick else 3
-  for i in range(0, len(dyn), per):
-    add({"gen": "explicit", "mode": "dynamic", "specs": dyn[i:i + per],
+  static_tasks, tasks = tasks, []
+  for i in range(len(dyn)):
+    add({"gen": "explicit", "mode": "dynamic", "specs": dyn[i:i + 1],
          "seeds": [rng.randrange(1 << 30) for _ in range(nseeds)]}, f"ninja/{i}", timeout=3000)
-  return tasks
+  return tasks + static_tasks      # the ninja batches wait on sleeps: start them first
 
 
 def run(tier, seed):
@@ -451,14 +471,20 @@ def run(tier, seed):
             "the fake pytype-single under several delay seeds. non-trivial = plan with a two-pass group or >=3 "
             "steps with a dependency chain of length >=3; distinct by the plan's dependency structure."))
   tasks = _tasks(tier, seed)
+  import glob
+  for stale in glob.glob(os.path.join(common.REPLAY, f"{PID}-*.json")):
+    with contextlib.suppress(OSError):
+      os.unlink(stale)
   agg = {}
   kinds = {}
   start_orders = set()
   max_par = 0
   internal = []
   flat_failed = False
+  walls = []
   for res in pool.run_tasks(tasks):
     tid = str(res.get("task"))
+    walls.append((round(res.get("wall", 0), 1), tid))
     if not res.get("ok"):
       ck.child_failed(res, f"C19 batch {tid}")
       flat_failed |= tid.startswith("flat")
@@ -486,6 +512,11 @@ def run(tier, seed):
   ck.count("distinct_start_orders_observed", len(start_orders))
   ck.count("max_parallelism_observed", max_par)
   ck.extra["plans_by_kind"] = kinds
+  ck.extra["slowest_batches_s"] = sorted(walls, reverse=True)[:5]
+  try:
+    ck.extra["loadavg_at_end"] = os.getloadavg()[0]
+  except OSError:
+    pass
   ck.extra["exhaustive_slice"] = ("all digraphs over <=%d flat modules x all non-empty requested subsets"
                                   % (3 if tier == "quick" else 4))
   ck.extra["exhaustive_slice_complete"] = not flat_failed
